@@ -160,6 +160,7 @@ class Control:
         self.aborted = False
         self.ticks = 0
         self.livelock = False
+        self.racer = None
 
     # ---- used by worker / observer (same thread, same loop)
     def ev(self, *rec):
